@@ -1,0 +1,136 @@
+//go:build verif
+
+package kgo
+
+import (
+	"github.com/twmb/franz-go/pkg/kerr"
+)
+
+// This file exists only in builds with the `verif` tag. It lets an external
+// verification harness put a producer topic of a chosen shape (all
+// partitions, the writable subset, buffered-record counts, a topic load
+// error) into a client's producer topic map exactly as a metadata merge
+// stores it, so that the public Produce path runs the real
+// partitionsForTopicProduce / doPartition / bufferRecord on it without a
+// broker, and lets the harness read the shape back. Nothing here changes
+// client behavior.
+
+// VerifC28SetTopic stores, for topic, partitions numbered 0..nAll-1
+// (partitions[i] is partition i) of which the ones listed in writable (in the
+// given order) are the writablePartitions, sets every partition's
+// buffered-record counter, and sets the topic load error from loadErrCode
+// (0 = none). Existing partitions (and so their record buffers and open
+// batches) and the topic's TopicPartitioner are kept across calls, as they
+// are across metadata updates. The client should be configured with
+// ManualFlushing so that nothing is drained in the background. It reports
+// false for arguments that do not describe a topic.
+func VerifC28SetTopic(cl *Client, topic string, nAll int, writable []int32, buffered []int64, loadErrCode int16) bool {
+	if nAll < 0 || len(buffered) != nAll {
+		return false
+	}
+	for _, w := range writable {
+		if w < 0 || int(w) >= nAll {
+			return false
+		}
+	}
+	p := &cl.producer
+	p.topicsMu.Lock()
+	defer p.topicsMu.Unlock()
+	if !p.topics.load().hasTopic(topic) {
+		p.topics.storeTopics([]string{topic})
+	}
+	parts := p.topics.load()[topic]
+	old := parts.load()
+
+	d := &topicPartitionsData{
+		topic:              topic,
+		partitions:         make([]*topicPartition, 0, nAll),
+		writablePartitions: make([]*topicPartition, 0, len(writable)),
+		when:               old.when,
+	}
+	if loadErrCode != 0 {
+		d.loadErr = kerr.ErrorForCode(loadErrCode)
+	}
+	for i := 0; i < nAll; i++ {
+		var tp *topicPartition
+		if i < len(old.partitions) {
+			tp = old.partitions[i]
+		} else {
+			// as in metadata.go newPartition
+			s := cl.newSink(int32(1000 + i))
+			rb := &recBuf{
+				cl:                  cl,
+				topic:               topic,
+				partition:           int32(i),
+				maxRecordBatchBytes: cl.maxRecordBatchBytesForTopic(topic),
+				recBufsIdx:          -1,
+				sink:                s,
+				lastAckedOffset:     -1,
+			}
+			rb.lingerFn = rb.unlingerAndManuallyDrain
+			s.addRecBuf(rb)
+			tp = &topicPartition{records: rb}
+		}
+		tp.records.buffered.Store(buffered[i])
+		d.partitions = append(d.partitions, tp)
+	}
+	for _, w := range writable {
+		d.writablePartitions = append(d.writablePartitions, d.partitions[w])
+	}
+	parts.v.Store(d)
+	return true
+}
+
+// VerifC28TopicPartitioner returns the topic's TopicPartitioner, creating it
+// the way doPartition does if no record has been partitioned yet. It returns
+// nil for a topic the producer does not know.
+func VerifC28TopicPartitioner(cl *Client, topic string) TopicPartitioner {
+	parts := cl.producer.topics.load()[topic]
+	if parts == nil {
+		return nil
+	}
+	parts.partsMu.Lock()
+	defer parts.partsMu.Unlock()
+	if parts.partitioner == nil {
+		parts.partitioner = cl.cfg.partitioner.ForTopic(topic)
+	}
+	return parts.partitioner
+}
+
+// VerifC28TopicShape reads what doPartition would read for topic: the number
+// of partitions, the partition numbers of partitions and of
+// writablePartitions in slice order, and every partition's buffered-record
+// counter. ok is false for a topic the producer does not know.
+func VerifC28TopicShape(cl *Client, topic string) (all, writable []int32, buffered []int64, ok bool) {
+	parts := cl.producer.topics.load()[topic]
+	if parts == nil {
+		return nil, nil, nil, false
+	}
+	d := parts.load()
+	for _, tp := range d.partitions {
+		all = append(all, tp.records.partition)
+		buffered = append(buffered, tp.records.buffered.Load())
+	}
+	for _, tp := range d.writablePartitions {
+		writable = append(writable, tp.records.partition)
+	}
+	return all, writable, buffered, true
+}
+
+// VerifC28DropTopic fails every record buffered on a topic stored by
+// VerifC28SetTopic and forgets the topic.
+func VerifC28DropTopic(cl *Client, topic string) {
+	p := &cl.producer
+	p.topicsMu.Lock()
+	defer p.topicsMu.Unlock()
+	parts := p.topics.load()[topic]
+	if parts == nil {
+		return
+	}
+	for _, tp := range parts.load().partitions {
+		tp.records.mu.Lock()
+		tp.records.failAllRecords(errPurged)
+		tp.records.mu.Unlock()
+	}
+	p.topics.purgeTopics([]string{topic})
+}
